@@ -91,6 +91,10 @@ def seg_cases(tier, rng):
                     plans.append(sorted(rng.sample(singles, min(len(singles), rng.randint(2, 3)))))
                 for cuts in plans:
                     cases.append(dict(p, kind="seg" + role, hs=hs, cuts=cuts))
+                # Handshake!ServerAccepts: an exchange keyed with one served torrent whose handshake names the other
+                if hs == "crypto" and role == "server" and p["pada"] <= 1 and p["padc"] <= 1:
+                    for cuts in ([], [-1]):
+                        cases.append(dict(p, kind="segserver", hs=hs, cuts=cuts, skey="B"))
     return cases
 
 
